@@ -10,7 +10,8 @@ from .c14 import ladder, fermion_matrix, phase_equal, cmat
 from .c19 import rand_eri
 
 IMPORTS = ('From OFV Require Import Base.Cplx Base.Mat Sem.FermiSem Model.SymbolicOp Model.LadderOp Check.MatrixOf.\n')
-NEEDS = ['Thm/C15/Suzuki', 'Check/MatrixOf']
+NEEDS = ['Thm/C15/Suzuki', 'Thm/C15/SuzukiR', 'Check/MatrixOf']
+TRUSTED = ['standard-library axioms used by ONE theorem (C15_suzuki_split_cancels, stated over Coq.Reals): ClassicalDedekindReals.sig_forall_dec, ClassicalDedekindReals.sig_not_dec (if listed), FunctionalExtensionality.functional_extensionality_dep - as reported by Print Assumptions in coverage.print_assumptions; every other theorem of the development is closed under the global context']
 LEVEL = 'translation_validation'
 
 def reversal_unitary(n):
